@@ -523,7 +523,7 @@ def kinds_union(a, b):
 
 TYPE_PRELUDE = ("class Foo {}\nfunction fn(a: number, b: string) {}\ntype T0 = string | number;\ninterface I0 { a: 1; (): void }\n"
                 "type Arr0 = boolean[];\ntype Tup0 = [string, number];\ntype Obj0 = { k: Date; j: number; m(): void; [x: string]: any };\n")
-PROP_KEYS = ["foo", "bar", "'baz-q'", "qux", "msg", "'onUpdate:x'", "count", "1"]
+PROP_KEYS = ["foo", "bar", "'baz-q'", "qux", "msg", "'onUpdate:x'", "count", "1", "'label'", "'size'"]
 
 
 class TGen(Gen):
@@ -606,7 +606,7 @@ class TGen(Gen):
         """a type expression denoting exactly the prop map M"""
         r = self.r
         ops = ["lit"] if d <= 0 else ["lit", "alias", "iface", "extends", "merge", "inter", "paren", "partial", "required",
-                                      "pick", "omit", "index", "chain"]
+                                      "pick", "pick", "omit", "omit", "index", "chain"]
         op = r.pick(ops)
         plain = [m for m in M if m[3] != "getter"]
         if op == "partial" and not (M and all(m[1] for m in plain)):
@@ -732,6 +732,8 @@ class TGen(Gen):
             k = m[0]
             kk = k.strip("'")
             c = r.below(9)
+            if k.startswith("'") and kk.isidentifier() and r.chance(1, 2):
+                c = 7
             if c == 0:
                 continue
             if c == 1:
@@ -809,7 +811,11 @@ class TGen(Gen):
         self.f("declkind:%d" % dk)
         stmt = ["const Comp = %s;", "let Comp = %s;", "var Comp = %s;", "export const Comp = %s;", "export default %s;", "Comp2 = %s;",
                 "const Comp = (%s);", "const { x } = %s;"][dk] % call
-        lines = [head, "let Comp2; const base = {}; const props = {}; const dflt = {}; const dyn = 'k'; function makeOpts() { return {} } const foo = { bar: 1 };",
+        decoy = ""
+        if r.chance(1, 4):
+            self.f("decoy-builtin-alias")
+            decoy = "function decoyScope() { type Date = string; type Map = [number, number][]; type Partial = { nope: 1 }; interface Promise { then: 1 } return 1 }"
+        lines = [head, decoy, "let Comp2; const base = {}; const props = {}; const dflt = {}; const dyn = 'k'; function makeOpts() { return {} } const foo = { bar: 1 };",
                  TYPE_PRELUDE]
         scoped = r.chance(1, 5)
         if scoped:
